@@ -295,7 +295,7 @@ def run(ctx):
     progs = []      # (id, src, features)
     for pid, src in DET_PROGRAMS.items():
         progs.append((pid, src, {}))
-    nprog = ctx.n(28, 1500)
+    nprog = ctx.n(24, 1500)
     feats = {}
     for i in range(nprog):
         src, feat = g9prog.go_program(ctx.rng)
@@ -352,9 +352,11 @@ def run(ctx):
             kind = "build-differs"
             ctx.fail(key, "%s: builds as %s but not as %s: %s" % (pid, "Go" if rb[0] == "nobinary" else "XGo", "XGo" if rb[0] == "nobinary" else "Go", build_out[:500]),
                      {"go_source": src, "go_build_output": build_out[:3000]})
+        elif ra[0] == "norun" and rb[0] == "norun":
+            kind = "both-exceed-30s"      # neither binary finished in 30 s: nothing to compare (counted, not a failure)
         elif ra[0] == "norun" or rb[0] == "norun":
-            kind = "not-run"
-            ctx.broken("differential(c01:run)", "%s could not be run: %s %s" % (pid, ra[1][:200], rb[1][:200]))
+            kind = "behaviour-differs"
+            ctx.fail(key, "%s: one of the two binaries did not finish within 30 s (Go: %s, XGo: %s)" % (pid, ra[0], rb[0]), {"go_source": src})
         elif ra != rb:
             kind = "behaviour-differs"
             what = "exit %s vs %s" % (ra[0], rb[0]) if ra[0] != rb[0] else ("stdout differs" if ra[1] != rb[1] else "panic value differs")
